@@ -3,7 +3,7 @@
 # (existing suite passes with the patch; demo fails with the patch and passes without)
 set -u
 PID=$1; N=$2; SID=$3
-WT=/tmp/wt_$PID; SRC=/tmp/agent_$PID/change_$N; OUT=/verif/seeded/$SID
+WT=${WT:-/tmp/wt_$PID}; SRC=${SRC:-/tmp/agent_$PID/change_$N}; OUT=/verif/seeded/$SID
 [ -f $SRC/patch.diff ] || { echo "no patch"; exit 2; }
 cd $WT && git checkout -q -- . && rm -f tests/demo.rs
 DEMO_CMD=$(python3 -c "import json;print(json.load(open('$SRC/meta.json'))['demo_cmd'])")
